@@ -2,7 +2,7 @@
 //! scripted in-memory server through `Connector::connector(..)`. The harness is the only source of
 //! bytes, readiness, closes and time; the code under test is reached through the public API only.
 
-use crate::framing::{build, Framing, Leftover, Resp};
+use crate::framing::{build, interim_bytes, Framing, Leftover, Resp};
 use actix_tls::connect::{ConnectError as TcpConnectError, ConnectInfo, Connection as TcpConnection};
 use futures_util::StreamExt as _;
 use mc_core::io::{IoOpts, IoState, ScriptIo};
@@ -50,12 +50,72 @@ pub enum Fault {
     Reset(usize),
 }
 
+/// what the client sends
+#[derive(Clone, Copy, Debug, Default, Serialize, Deserialize, PartialEq, Eq, Hash)]
+pub enum ReqKind {
+    /// bodiless GET (HEAD for the HEAD framing)
+    #[default]
+    Get,
+    /// POST with `send_body` (Content-Length request body)
+    Sized,
+    /// POST with `send_stream` (chunked request body, two chunks)
+    Stream,
+    /// POST, `Expect: 100-continue`, Content-Length body
+    ExpectSized,
+    /// POST, `Expect: 100-continue`, chunked body
+    ExpectStream,
+}
+
+impl ReqKind {
+    pub fn label(self) -> &'static str {
+        match self {
+            ReqKind::Get => "get",
+            ReqKind::Sized => "post-sized",
+            ReqKind::Stream => "post-stream",
+            ReqKind::ExpectSized => "expect-sized",
+            ReqKind::ExpectStream => "expect-stream",
+        }
+    }
+    pub fn expects(self) -> bool {
+        matches!(self, ReqKind::ExpectSized | ReqKind::ExpectStream)
+    }
+}
+
+/// interim (1xx) behaviour of the scripted server before the final response.
+/// For `Expect` requests: `None` = final response at once, without waiting for the body;
+/// `Continue100` = `100 Continue`, wait for the body, final response; `ContinueThenClose` =
+/// `100 Continue`, then the server closes. For all other requests the interim response is
+/// unsolicited and is sent after the complete request, before the final response.
+#[derive(Clone, Copy, Debug, Default, Serialize, Deserialize, PartialEq, Eq, Hash)]
+pub enum Interim {
+    #[default]
+    None,
+    Continue100,
+    Early103,
+    ContinueThenClose,
+}
+
+impl Interim {
+    pub fn label(self) -> &'static str {
+        match self {
+            Interim::None => "",
+            Interim::Continue100 => "+100",
+            Interim::Early103 => "+103",
+            Interim::ContinueThenClose => "+100close",
+        }
+    }
+}
+
 #[derive(Clone, Debug, Serialize, Deserialize)]
 pub struct ReqSpec {
     pub framing: Framing,
     pub consumer: Consumer,
     pub fault: Fault,
     pub leftover: Leftover,
+    #[serde(default)]
+    pub kind: ReqKind,
+    #[serde(default)]
+    pub interim: Interim,
 }
 
 #[derive(Clone, Debug, Serialize, Deserialize)]
@@ -95,6 +155,7 @@ pub struct StartSnap {
 pub struct TagIo {
     io: ScriptIo,
     meta: Rc<Meta>,
+    sc: Rc<Scen>,
 }
 
 impl std::fmt::Debug for TagIo {
@@ -103,21 +164,82 @@ impl std::fmt::Debug for TagIo {
     }
 }
 
-fn count_requests(out: &[u8]) -> (usize, usize) {
-    // (complete requests, offset just after the last complete one); requests have no body
-    let mut n = 0;
+/// One request found in the bytes the client wrote on a connection (head complete).
+pub struct PReq {
+    pub j: Option<usize>,
+    pub expect: bool,
+    /// offset just after the request (head + body); None while the body is incomplete
+    pub end: Option<usize>,
+}
+
+fn find(hay: &[u8], from: usize, needle: &[u8]) -> Option<usize> {
+    if hay.len() < needle.len() {
+        return None;
+    }
+    (from..=hay.len() - needle.len()).find(|&i| &hay[i..i + needle.len()] == needle)
+}
+
+fn chunked_end(out: &[u8], mut at: usize) -> Option<usize> {
+    loop {
+        let le = find(out, at, b"\r\n")?;
+        let line = std::str::from_utf8(&out[at..le]).ok()?;
+        let size = usize::from_str_radix(line.split(';').next()?.trim(), 16).ok()?;
+        at = le + 2;
+        if size == 0 {
+            // no trailers are ever sent by awc
+            return if out.len() >= at + 2 { Some(at + 2) } else { None };
+        }
+        if out.len() < at + size + 2 {
+            return None;
+        }
+        at += size + 2;
+    }
+}
+
+/// Requests written so far (those whose head is complete), and whether the written bytes end
+/// exactly at a request boundary.
+pub fn parse_out(out: &[u8], sc: &Scen) -> (Vec<PReq>, bool) {
+    let mut v = Vec::new();
     let mut at = 0;
-    let mut i = 0;
-    while i + 4 <= out.len() {
-        if &out[i..i + 4] == b"\r\n\r\n" {
-            n += 1;
-            i += 4;
-            at = i;
+    loop {
+        if at == out.len() {
+            return (v, true);
+        }
+        let Some(he) = find(out, at, b"\r\n\r\n") else { return (v, false) };
+        let head_end = he + 4;
+        let head = String::from_utf8_lossy(&out[at..head_end]).to_ascii_lowercase();
+        let j = request_number(&out[at..head_end]);
+        let mut cl: Option<usize> = None;
+        let mut chunked = false;
+        let mut expect = false;
+        for line in head.split("\r\n").skip(1) {
+            if let Some(v) = line.strip_prefix("content-length:") {
+                cl = v.trim().parse().ok();
+            } else if let Some(v) = line.strip_prefix("transfer-encoding:") {
+                chunked = v.trim() == "chunked";
+            } else if line.starts_with("expect:") {
+                expect = true;
+            }
+        }
+        // the server answered this request without waiting for its body: what follows is the
+        // body only if it does not look like a new request
+        let answered_early = expect
+            && j.and_then(|j| sc.reqs.get(j)).map(|s| s.kind.expects() && s.interim == Interim::None).unwrap_or(false);
+        let body_absent = answered_early && (head_end == out.len() || matches!(out[head_end], b'G' | b'H' | b'P'));
+        let end = if body_absent {
+            Some(head_end)
+        } else if chunked {
+            chunked_end(out, head_end)
         } else {
-            i += 1;
+            let n = cl.unwrap_or(0);
+            if out.len() >= head_end + n { Some(head_end + n) } else { None }
+        };
+        v.push(PReq { j, expect, end });
+        match end {
+            Some(e) => at = e,
+            None => return (v, false),
         }
     }
-    (n, at)
 }
 
 impl AsyncRead for TagIo {
@@ -143,8 +265,9 @@ impl AsyncWrite for TagIo {
     fn poll_write(mut self: Pin<&mut Self>, cx: &mut Context<'_>, buf: &[u8]) -> Poll<io::Result<usize>> {
         if !buf.is_empty() {
             let st = self.io.0.borrow();
-            let (n, at) = count_requests(&st.out);
-            if at == st.out.len() {
+            let (reqs, at_boundary) = parse_out(&st.out, &self.sc);
+            let n = reqs.len();
+            if at_boundary {
                 let mut starts = self.meta.starts.borrow_mut();
                 if !starts.iter().any(|s| s.ordinal == n) {
                     starts.push(StartSnap { ordinal: n, unread: st.unread(), fin_seen: st.read_eof || st.reset });
@@ -202,6 +325,9 @@ struct ConnRec {
     st: Rc<RefCell<IoState>>,
     meta: Rc<Meta>,
     answered: usize,
+    /// 0 = waiting for the next request; 1 = `100 Continue` sent, waiting for the body;
+    /// 2 = unsolicited interim response sent, the final response follows at the next step
+    stage: u8,
     queue: VecDeque<Act>,
     server_closed: bool,
 }
@@ -273,12 +399,32 @@ async fn consume(
         }
         let spec = sc.reqs[j].clone();
         let url = format!("http://srv.test/r{j}");
-        let mut rq = if spec.framing.method_head() { client.head(url) } else { client.get(url) };
+        let mut rq = if spec.framing.method_head() {
+            client.head(url)
+        } else if spec.kind == ReqKind::Get {
+            client.get(url)
+        } else {
+            client.post(url)
+        };
         if spec.framing.request_close() {
             rq = rq.force_close();
         }
+        if spec.kind.expects() {
+            rq = rq.insert_header(("expect", "100-continue"));
+        }
         outs.borrow_mut()[j] = ReqOut::Sending;
-        let res = rq.send().await;
+        let body = request_body(j);
+        let fut = match spec.kind {
+            ReqKind::Get => rq.send(),
+            ReqKind::Sized | ReqKind::ExpectSized => rq.send_body(body),
+            ReqKind::Stream | ReqKind::ExpectStream => {
+                let (a, b) = body.split_at(5);
+                let items: Vec<Result<bytes::Bytes, std::io::Error>> =
+                    vec![Ok(bytes::Bytes::copy_from_slice(a)), Ok(bytes::Bytes::copy_from_slice(b))];
+                rq.send_stream(futures_util::stream::iter(items))
+            }
+        };
+        let res = fut.await;
         let mut resp = match res {
             Err(e) => {
                 outs.borrow_mut()[j] = ReqOut::SendErr(err_kind(format!("{e:?}")));
@@ -332,6 +478,11 @@ async fn consume(
     }
 }
 
+/// request body of request j (never starts with a method letter)
+pub fn request_body(j: usize) -> Vec<u8> {
+    format!("body-{j}-0123456789").into_bytes()
+}
+
 fn request_number(req: &[u8]) -> Option<usize> {
     // "GET /r<j> HTTP/1.1"
     let line_end = req.iter().position(|&b| b == b'\r')?;
@@ -372,6 +523,7 @@ async fn drive(sc: Rc<Scen>, chooser: Rc<RefCell<Chooser>>) -> Obs {
     let svc = {
         let conns = conns.clone();
         let chooser = chooser.clone();
+        let sc_for_io = sc.clone();
         actix_service::fn_service(move |info: ConnectInfo<awc::http::Uri>| {
             let st = Rc::new(RefCell::new(IoState::new(chooser.clone(), opts.clone())));
             let meta = Rc::new(Meta::default());
@@ -379,10 +531,11 @@ async fn drive(sc: Rc<Scen>, chooser: Rc<RefCell<Chooser>>) -> Obs {
                 st: st.clone(),
                 meta: meta.clone(),
                 answered: 0,
+                stage: 0,
                 queue: VecDeque::new(),
                 server_closed: false,
             });
-            let io = TagIo { io: ScriptIo::new(st), meta };
+            let io = TagIo { io: ScriptIo::new(st), meta, sc: sc_for_io.clone() };
             let uri = info.request().clone();
             async move { Ok::<_, TcpConnectError>(TcpConnection::new(uri, io)) }
         })
@@ -481,43 +634,86 @@ async fn drive(sc: Rc<Scen>, chooser: Rc<RefCell<Chooser>>) -> Obs {
                 continue;
             }
             let mut st = c.st.borrow_mut();
-            let (n, _) = count_requests(&st.out);
-            if n <= c.answered {
-                continue;
-            }
-            // locate request number c.answered
-            let mut start = 0;
-            let mut seen = 0;
-            let mut i = 0;
-            let mut found: Option<(usize, usize)> = None;
-            while i + 4 <= st.out.len() {
-                if &st.out[i..i + 4] == b"\r\n\r\n" {
-                    if seen == c.answered {
-                        found = Some((start, i + 4));
-                        break;
-                    }
-                    seen += 1;
-                    i += 4;
-                    start = i;
-                } else {
-                    i += 1;
-                }
-            }
-            let (s, e) = found.expect("request boundaries");
-            let ordinal = c.answered;
-            c.answered += 1;
-            acted = true;
-            let Some(j) = request_number(&st.out[s..e]).filter(|&j| j < nreq) else {
+            let (reqs, _) = parse_out(&st.out, &sc);
+            let Some(rq) = reqs.get(c.answered) else { continue };
+            let Some(j) = rq.j.filter(|&j| j < nreq) else {
                 // not one of ours: answer nothing, close
                 unparsable = true;
                 st.peer_fin();
                 c.server_closed = true;
+                c.answered += 1;
+                acted = true;
                 continue;
             };
             let spec = &sc.reqs[j];
+            let ordinal = c.answered;
+            let mut final_prefix: Option<Vec<u8>> = None;
+            match c.stage {
+                0 => {
+                    if spec.kind.expects() && rq.expect {
+                        match spec.interim {
+                            Interim::None => final_prefix = Some(Vec::new()),
+                            Interim::Continue100 | Interim::Early103 => {
+                                c.meta.framed_end.set(usize::MAX);
+                                st.arrive(b"HTTP/1.1 100 Continue\r\n\r\n");
+                                c.stage = 1;
+                                acted = true;
+                            }
+                            Interim::ContinueThenClose => {
+                                c.meta.framed_end.set(usize::MAX);
+                                st.arrive(b"HTTP/1.1 100 Continue\r\n\r\n");
+                                st.peer_fin();
+                                c.server_closed = true;
+                                served[j] = Served { conn: Some(ci), ordinal, delivered: 0, fault_applied: true };
+                                c.answered += 1;
+                                acted = true;
+                            }
+                        }
+                    } else if rq.end.is_some() {
+                        match spec.interim {
+                            Interim::None => final_prefix = Some(Vec::new()),
+                            Interim::ContinueThenClose => {
+                                c.meta.framed_end.set(usize::MAX);
+                                st.arrive(&interim_bytes(spec.interim, j));
+                                st.peer_fin();
+                                c.server_closed = true;
+                                served[j] = Served { conn: Some(ci), ordinal, delivered: 0, fault_applied: true };
+                                c.answered += 1;
+                                acted = true;
+                            }
+                            i => {
+                                // the final response follows one quiescent point later (0) or
+                                // in the same segment (1)
+                                let gap = chooser.borrow_mut().choose("interim_gap", 2);
+                                if gap == 0 {
+                                    c.meta.framed_end.set(usize::MAX);
+                                    st.arrive(&interim_bytes(i, j));
+                                    c.stage = 2;
+                                    acted = true;
+                                } else {
+                                    final_prefix = Some(interim_bytes(i, j));
+                                }
+                            }
+                        }
+                    }
+                }
+                1 => {
+                    if rq.end.is_some() {
+                        final_prefix = Some(Vec::new());
+                    }
+                }
+                _ => final_prefix = Some(Vec::new()),
+            }
+            let Some(prefix) = final_prefix else { continue };
+            c.stage = 0;
+            c.answered += 1;
+            acted = true;
             let r: Resp = build(spec.framing, j, spec.leftover);
-            let base = st.inbox.len();
+            let base = st.inbox.len() + prefix.len();
             c.meta.framed_end.set(base + r.framed_len);
+            if !prefix.is_empty() {
+                st.cuts.push(base);
+            }
             st.cuts.extend(r.cuts.iter().map(|x| base + x));
             let (k, fault) = match spec.fault {
                 Fault::None => (r.bytes.len(), None),
@@ -525,8 +721,10 @@ async fn drive(sc: Rc<Scen>, chooser: Rc<RefCell<Chooser>>) -> Obs {
                 Fault::Reset(k) => (k.min(r.bytes.len()), Some(Act::Reset)),
             };
             served[j] = Served { conn: Some(ci), ordinal, delivered: k, fault_applied: fault.is_some() };
-            if k > 0 {
-                st.arrive(&r.bytes[..k]);
+            let mut seg = prefix;
+            seg.extend_from_slice(&r.bytes[..k]);
+            if !seg.is_empty() {
+                st.arrive(&seg);
             }
             if let Some(f) = fault {
                 // with the last bytes (0) or one quiescent point later (1)
@@ -605,18 +803,7 @@ async fn drive(sc: Rc<Scen>, chooser: Rc<RefCell<Chooser>>) -> Obs {
     let mut conn_starts = Vec::new();
     for c in cs.iter() {
         let st = c.st.borrow();
-        let mut v = Vec::new();
-        let mut start = 0;
-        let mut i = 0;
-        while i + 4 <= st.out.len() {
-            if &st.out[i..i + 4] == b"\r\n\r\n" {
-                v.push(request_number(&st.out[start..i + 4]).unwrap_or(usize::MAX));
-                i += 4;
-                start = i;
-            } else {
-                i += 1;
-            }
-        }
+        let v: Vec<usize> = parse_out(&st.out, &sc).0.iter().map(|r| r.j.unwrap_or(usize::MAX)).collect();
         conn_reqs.push(v);
         conn_starts.push(c.meta.starts.borrow().clone());
     }
